@@ -290,11 +290,15 @@ class Matcher:
             if k == 'nest':
                 stack = self.push((t[2], mode, ind + t[1], fl), rest)
                 continue
-            if k == 'align':
-                stack = self.push((t[1], mode, self.st.col[pos], fl), rest)
-                continue
-            if k == 'hang':
-                stack = self.push((t[2], mode, self.st.col[pos] + t[1], fl), rest)
+            if k in ('align', 'hang'):
+                body = t[1] if k == 'align' else t[2]
+                if self.forcing and (mode == FLAT or fl[0] > 0) and not fl[3] and hoists_ab(body):
+                    # a lazily evaluated body is normalised when the engine reaches it - also in the look-ahead that decides the enclosing
+                    # flat scope: an always_break anywhere in it is hoisted to its START, so the look-ahead meets it before any hardline of
+                    # the body and the scope cannot have been laid out flat (after an EARLIER bare hardline the scope is already relaxed)
+                    self.dead.add(key)
+                    return False
+                stack = self.push((body, mode, self.st.col[pos] + (0 if k == 'align' else t[1]), fl), rest)
                 continue
             if k == 'ann':
                 if pos < len(items) and items[pos][0] == 'push' and _same_label(items[pos][1], t[1]):
